@@ -163,7 +163,7 @@ func injectFault(rng *rand.Rand, in *input, clauses []clause, pl []placed, files
 	in.ExpectPos = posT{p.file, p.line}
 	in.ExpectChain = p.chain
 	switch {
-	case kind < 6:
+	case kind < 5:
 		repl(indent + bogus[rng.Intn(len(bogus))])
 		in.ExpectCls, in.Fault = 7, "bogus-clause"
 	case kind == 6:
@@ -172,6 +172,28 @@ func injectFault(rng *rand.Rand, in *input, clauses []clause, pl []placed, files
 	case kind == 7 && clauses[k].section == "":
 		repl("title ~nosuchparam~ here")
 		in.ExpectCls, in.Fault = 4, "undefined-parameter"
+	case kind == 5:
+		// three or more undefined parameters in ONE clause (their errors are combined)
+		u := "~u1~ and ~u2~ and ~u3~"
+		if rng.Intn(2) == 0 {
+			u += " ~u4~~u5~"
+		}
+		switch clauses[k].section {
+		case "":
+			repl("title " + u)
+		case "cast":
+			repl(indent + "zed plays ~u1~~u2~~u3~")
+		case "script":
+			repl(indent + "repeat ~u1~~u2~~u3~ times")
+		case "audience":
+			repl(indent + "zed expects always: ~u1~ + ~u2~ + ~u3~ > 0")
+		default:
+			repl(indent + bogus[0])
+			in.ExpectCls, in.Fault = 7, "bogus-clause"
+			in.rebuild(files)
+			return true
+		}
+		in.ExpectCls, in.Fault = 4, "three-undefined-parameters"
 	case kind == 8:
 		// an unterminated continuation at the very end of this file: everything
 		// from clause k on is dropped from the file
